@@ -1,6 +1,6 @@
 #!/bin/bash
 # run_all.sh [quick|thorough]: run every claimed check on the current /repo tree (refreshes evidence/).
-cd /verif
+cd "$(dirname "$0")/.."
 git -C /repo diff --quiet || { echo "/repo has uncommitted changes"; exit 2; }
 tier=${1:-quick}
 fail=0
